@@ -875,6 +875,11 @@ func c01Corpus() []corr.Case {
 		// rename file over file, O_EXCL, O_TRUNC
 		mk("create "+h("/p"), "h.write 0 6161", "create "+h("/q"), "h.write 1 6262", "rename "+h("/p")+" "+h("/q"), "openfile "+h("/q")+" 192 420",
 			"openfile "+h("/q")+" 514 420", "h.write 2 63", "snapshot"),
+		// a relative seek that fails leaves the handle where it was
+		mk("create "+h("/f"), "h.write 0 30313233343536", "h.seek 0 3 0", "h.seek 0 -5 1", "h.seek 0 0 1", "h.read 0 3", "h.seek 0 -9 1", "h.write 0 58", "h.seek 0 0 0", "h.read 0 16", "snapshot"),
+		// a handle that stays open across a rename of its file still is a handle on that file: length changes show on both sides
+		mk("create "+h("/p"), "h.write 0 48656c6c6f", "rename "+h("/p")+" "+h("/r"), "h.write 0 20776f726c64", "stat "+h("/r"), "open "+h("/r"), "h.read 1 16",
+			"openfile "+h("/r")+" 2 420", "h.trunc 2 2", "h.seek 0 0 0", "h.read 0 16", "stat "+h("/r"), "h.writeat 0 5a5a 6", "stat "+h("/r"), "h.seek 1 0 0", "h.read 1 16", "snapshot"),
 		// a subtree is delimited by path elements, not by a string prefix
 		mk("mkdirall "+h("/d/log")+" 493", "mkdir "+h("/d/logs")+" 493", "create "+h("/d/log.old"), "create "+h("/d/log/x"), "create "+h("/d/logs/keep"),
 			"removeall "+h("/d/log"), "stat "+h("/d/log.old"), "stat "+h("/d/logs/keep"), "snapshot", "rename "+h("/d/logs")+" "+h("/d/l"), "stat "+h("/d/log.old"), "snapshot"),
